@@ -176,10 +176,18 @@ Definition try_number_to_u32 (num : json) : lam_res N :=
   | _ => LamErr (IndexAccessNotU32 num)
   end.
 
+(* `values.get(idx as usize)` / `iter.nth(idx)`: the element at position [i], by structural recursion on
+   the list (the index stays a binary number: an index such as 4294967295 must not become a unary nat) *)
+Fixpoint nth_N {A} (l : list A) (i : N) : option A :=
+  match l with
+  | [] => None
+  | x :: rest => if i =? 0 then Some x else nth_N rest (N.pred i)
+  end.
+
 (* try_jvalue_with_idx *)
 Definition try_jvalue_with_idx (v : json) (idx : N) : lam_res json :=
   match v with
-  | JArr l => match nth_error l (N.to_nat idx) with
+  | JArr l => match nth_N l idx with
               | Some x => LamOk x
               | None => LamErr (ValueNotContainSuchArrayIdx v idx)
               end
@@ -302,7 +310,7 @@ Definition split_to_idx (e : env) (path : list accessor) : lres (N * list access
 
 (* `stream.peekable().nth(idx).ok_or(CanonStreamNotHaveEnoughValues { stream_size, idx })` *)
 Definition stream_nth (elems : list json) (idx : N) : lres json :=
-  match nth_error elems (N.to_nat idx) with
+  match nth_N elems idx with
   | Some x => LOk x
   | None => LCatchable (LambdaApplierError (CanonStreamNotHaveEnoughValues (N.of_nat (length elems)) idx))
   end.
@@ -381,7 +389,7 @@ Inductive step := SField (name : string) | SIndex (i : N).
 Definition nav1 (v : json) (s : step) : option json :=
   match s, v with
   | SField name, JObj kvs => option_map snd (find (fun kv => String.eqb (fst kv) name) kvs)
-  | SIndex i, JArr l => nth_error l (N.to_nat i)
+  | SIndex i, JArr l => nth_N l i
   | _, _ => None
   end.
 
@@ -528,7 +536,7 @@ Definition C24_canon_stream_stmt : Prop :=
 Definition C24_canon_stream_first_stmt : Prop :=
   forall (e : env) (elems : list json) (a : accessor) (body : list accessor) (r : json),
     select_by_lambda_from_stream e elems (LValuePath (a :: body)) = LOk r <->
-    exists i x, resolve e a = Some (SIndex i) /\ nth_error elems (N.to_nat i) = Some x /\
+    exists i x, resolve e a = Some (SIndex i) /\ nth_N elems i = Some x /\
                 select_by_lambda_from_scalar e x (LValuePath body) = LOk r.
 
 Definition C24_canon_stream_total_stmt : Prop :=
